@@ -147,6 +147,26 @@ enum Handle {
     Filter(reload::Handle<BoxFilter>),
 }
 impl Handle {
+    /// `reload` spelled through `modify` (which is what `reload` does), storing `tag` under the
+    /// same write lock so that the order of the tags is the order of the values
+    fn reload_tagged(&self, s: &FSpec, tag: usize, last: &std::sync::atomic::AtomicUsize) -> Result<(), reload::Error> {
+        match self {
+            Handle::Layer(h) => {
+                let v = as_layer(s);
+                h.modify(move |slot| {
+                    *slot = v;
+                    last.store(tag, Ordering::SeqCst);
+                })
+            }
+            Handle::Filter(h) => {
+                let v = as_filter(s);
+                h.modify(move |slot| {
+                    *slot = v;
+                    last.store(tag, Ordering::SeqCst);
+                })
+            }
+        }
+    }
     fn reload(&self, s: &FSpec) -> Result<(), reload::Error> {
         match self {
             Handle::Layer(h) => h.reload(as_layer(s)),
@@ -169,6 +189,7 @@ fn main() {
     match args.mode.clone() {
         Mode::Parent => parent(&args),
         Mode::Child(k) if k == "conc" => child_conc(&args),
+        Mode::Child(k) if k == "conc2" => child_conc2(&args),
         Mode::Child(_) => child_hist(&args),
         Mode::Replay(p) => run::replay(ID, &p),
     }
@@ -182,6 +203,9 @@ fn parent(args: &Args) {
     run::classify_ends(&ends, &mut out, true);
     let n = args.get_u64("cshards", args.tier.pick(160, 3200));
     let ends = run::run_children(args, &ChildSpec::new("conc", n).arg("runs", args.get_u64("runs", 10)).timeout(600), &mut out);
+    run::classify_ends(&ends, &mut out, true);
+    let n = args.get_u64("c2shards", args.tier.pick(64, 1280));
+    let ends = run::run_children(args, &ChildSpec::new("conc2", n).arg("runs", args.get_u64("runs2", 4)).timeout(600), &mut out);
     run::classify_ends(&ends, &mut out, true);
     let mut extra = Map::new();
     vlib::sanlayer::run_layers(ID, args, &mut out, &mut extra);
@@ -506,6 +530,128 @@ fn child_conc(args: &Args) {
         let (sig, ord) = chaos::signature(&hooklogs, &[tracing_core::verif::site::MC_INTEREST_LOADED, tracing_core::verif::site::GD_AFTER_SCOPED_LOAD]);
         out.distinct(sig);
         out.count("conc_hook_events", ord.len() as u64);
+        drop(disp);
+    }
+    chaos::uninstall();
+    out.emit();
+}
+
+// ---------------------------------------------------------------------------------------------
+// several handles reloading CONCURRENTLY, judged at quiescence: after every racing reload has
+// returned, the value stored last (known through a tag written under the same write lock) must
+// be what every thread filters with - interests and the global max level included.
+fn child_conc2(args: &Args) {
+    use std::sync::atomic::AtomicUsize;
+    let runs = args.get_u64("runs", 4);
+    let mut out = Out::new();
+    let fresh = Fresh::new();
+    chaos::install();
+    for r in 0..runs {
+        let mut rng = Rng::derive(args.seed, 0xC12D + args.shard, r);
+        let per_layer = rng.bool();
+        let rec = RecLayer::default();
+        let initial = gen_spec(&mut rng);
+        let (disp, handle) = mk_stack(per_layer, &initial, rec.clone());
+        let handle = Arc::new(handle);
+        let mut pool: Vec<&'static Cs> = vec![];
+        for _ in 0..6 {
+            if let Some(c) = fresh.take(1 + rng.usize(5), rng.usize(4), Kind::Event) {
+                pool.push(c);
+            }
+        }
+        if pool.len() < 3 {
+            break;
+        }
+        let nrel = 2 + rng.usize(2);
+        let rounds = 30 + rng.usize(40);
+        // specs[round][reloader]
+        let specs: Vec<Vec<FSpec>> = (0..rounds).map(|_| (0..nrel).map(|_| gen_spec(&mut rng)).collect()).collect();
+        let intensity = [0u32, 30, 60, 90][rng.usize(4)];
+        let last = Arc::new(AtomicUsize::new(usize::MAX));
+        let start = Arc::new(Barrier::new(nrel + 1));
+        let done = Arc::new(Barrier::new(nrel + 1));
+        let mut hs = vec![];
+        for t in 0..nrel {
+            let handle = handle.clone();
+            let last = last.clone();
+            let start = start.clone();
+            let done = done.clone();
+            let my: Vec<FSpec> = specs.iter().map(|v| v[t].clone()).collect();
+            let cseed = rng.next_u64();
+            hs.push(std::thread::spawn(move || {
+                chaos::arm(t, cseed, intensity, true);
+                let mut err = None;
+                for (round, s) in my.iter().enumerate() {
+                    start.wait();
+                    if let Err(e) = handle.reload_tagged(s, round * 8 + t, &last) {
+                        err = Some(e.to_string());
+                    }
+                    done.wait();
+                }
+                (err, chaos::disarm())
+            }));
+        }
+        let workers = Workers::new(2);
+        for t in 0..2 {
+            let d = disp.clone();
+            workers.run(t, move || std::mem::forget(dispatch::set_default(&d))).expect("HARNESS: install");
+        }
+        let mut opid = (args.shard + 1) << 32 | (r << 24);
+        let mut viol = None;
+        for round in 0..rounds {
+            start.wait();
+            done.wait();
+            // quiescent: every reload of this round has returned
+            let tag = last.load(Ordering::SeqCst);
+            let cur = &specs[tag / 8][tag % 8];
+            for (k, cs) in pool.iter().enumerate() {
+                opid += 1;
+                let id = opid;
+                let cs: &'static Cs = cs;
+                workers.run(k % 2, move || emit(cs, id)).expect("HARNESS: emit");
+                let got = std::mem::take(&mut *rec.0.lock().unwrap());
+                let want = cur.accept(cs.level, cs.target);
+                out.evals += 1;
+                out.count("conc2_quiescent_emissions", 1);
+                if got != if want { vec![id] } else { vec![] } {
+                    viol = Some(json!({"round": round, "reloaders": nrel, "racing_values": specs[round].iter().map(|s| s.code()).collect::<Vec<_>>(),
+                                       "value_stored_last": cur.code(), "callsite": format!("{} {}", vcs::LEVEL_NAMES[cs.level], TARGETS[cs.target]),
+                                       "expected_delivery": want, "delivered": got, "LevelFilter::current": format!("{}", LevelFilter::current()),
+                                       "per_layer": per_layer, "run": r, "shard": args.shard, "chaos_intensity": intensity}));
+                    break;
+                }
+            }
+            if viol.is_some() {
+                // let the reloaders finish their remaining rounds
+                for _ in round + 1..rounds {
+                    start.wait();
+                    done.wait();
+                }
+                break;
+            }
+        }
+        let mut hooklogs = vec![];
+        for (t, h) in hs.into_iter().enumerate() {
+            match h.join() {
+                Ok((e, hl)) => {
+                    if let Some(e) = e {
+                        out.violation("reload on a live collector returned an error while another reload was racing", json!({"error": e, "run": r, "shard": args.shard}));
+                    }
+                    hooklogs.push((t, hl));
+                }
+                Err(p) => out.violation("panic in a thread racing reloads", json!({"panic": run::panic_msg(&p), "run": r, "shard": args.shard})),
+            }
+        }
+        drop(workers);
+        if let Some(w) = viol {
+            out.violation("after concurrently racing reloads had all returned, an emission was not judged by the value stored last (stale interest cache or stale global maximum level)", w);
+            break;
+        }
+        out.count("conc2_runs", 1);
+        out.count("conc2_rounds", rounds as u64);
+        let (sig, ord) = chaos::signature(&hooklogs, &[]);
+        out.distinct(sig);
+        out.count("conc2_hook_events", ord.len() as u64);
         drop(disp);
     }
     chaos::uninstall();
